@@ -219,6 +219,8 @@ impl SymbolMap {
         let define_loc = record.define_loc;
         let kind = record.kind.clone();
         let id = self.record_list.alloc(record);
+        #[cfg(feature = "verif")]
+        crate::verif_hooks::define(id.into(), &name, define_loc, false);
         match kind {
             RecordKind::Class => {
                 self.name_to_class.insert(name, id);
@@ -239,26 +241,45 @@ impl SymbolMap {
 
     pub fn add_anonymous_def(&mut self, record: Record) -> RecordId {
         assert!(record.kind == RecordKind::Def);
+        #[cfg(feature = "verif")]
+        crate::verif_hooks::define(
+            self.record_list.next_id().into(),
+            &record.name,
+            record.define_loc,
+            true,
+        );
         self.record_list.alloc(record)
     }
 
     pub fn add_template_argument(&mut self, template_arg: TemplateArgument) -> TemplateArgumentId {
         let define_loc = template_arg.define_loc;
+        #[cfg(feature = "verif")]
+        let name = template_arg.name.clone();
         let id = self.template_arg_list.alloc(template_arg);
+        #[cfg(feature = "verif")]
+        crate::verif_hooks::define(id.into(), &name, define_loc, false);
         self.add_to_pos_to_symbol_map(define_loc, id);
         id
     }
 
     pub fn add_record_field(&mut self, record_field: RecordField) -> RecordFieldId {
         let define_loc = record_field.define_loc;
+        #[cfg(feature = "verif")]
+        let name = record_field.name.clone();
         let id = self.record_field_list.alloc(record_field);
+        #[cfg(feature = "verif")]
+        crate::verif_hooks::define(id.into(), &name, define_loc, false);
         self.add_to_pos_to_symbol_map(define_loc, id);
         id
     }
 
     pub fn add_variable(&mut self, variable: Variable) -> VariableId {
         let define_loc = variable.define_loc;
+        #[cfg(feature = "verif")]
+        let name = variable.name.clone();
         let id = self.variable_list.alloc(variable);
+        #[cfg(feature = "verif")]
+        crate::verif_hooks::define(id.into(), &name, define_loc, false);
         self.file_to_symbol_list
             .entry(define_loc.file)
             .or_default()
@@ -269,7 +290,11 @@ impl SymbolMap {
 
     pub fn add_defset(&mut self, defset: Defset) -> DefsetId {
         let define_loc = defset.define_loc;
+        #[cfg(feature = "verif")]
+        let name = defset.name.clone();
         let id = self.defset_list.alloc(defset);
+        #[cfg(feature = "verif")]
+        crate::verif_hooks::define(id.into(), &name, define_loc, false);
         self.file_to_symbol_list
             .entry(define_loc.file)
             .or_default()
@@ -282,6 +307,8 @@ impl SymbolMap {
         let name = multiclass.name.clone();
         let define_loc = multiclass.define_loc;
         let id = self.multiclass_list.alloc(multiclass);
+        #[cfg(feature = "verif")]
+        crate::verif_hooks::define(id.into(), &name, define_loc, false);
         self.name_to_multiclass.insert(name, id);
         self.file_to_symbol_list
             .entry(define_loc.file)
@@ -293,7 +320,11 @@ impl SymbolMap {
 
     pub fn add_defm(&mut self, defm: Defm, is_global: bool) -> DefmId {
         let define_loc = defm.define_loc;
+        #[cfg(feature = "verif")]
+        let name = defm.name.clone();
         let id = self.defm_list.alloc(defm);
+        #[cfg(feature = "verif")]
+        crate::verif_hooks::define(id.into(), &name, define_loc, false);
         if is_global {
             self.file_to_symbol_list
                 .entry(define_loc.file)
@@ -305,11 +336,20 @@ impl SymbolMap {
     }
 
     pub fn add_anonymous_defm(&mut self, defm: Defm) -> DefmId {
+        #[cfg(feature = "verif")]
+        crate::verif_hooks::define(
+            self.defm_list.next_id().into(),
+            &defm.name,
+            defm.define_loc,
+            true,
+        );
         self.defm_list.alloc(defm)
     }
 
     pub fn add_reference(&mut self, symbol_id: impl Into<SymbolId>, reference_loc: FileRange) {
         let symbol_id = symbol_id.into();
+        #[cfg(feature = "verif")]
+        crate::verif_hooks::reference(symbol_id, reference_loc);
         let mut symbol = self.symbol_mut(symbol_id);
         symbol.add_reference(reference_loc);
         self.add_to_pos_to_symbol_map(reference_loc, symbol_id);
